@@ -382,16 +382,115 @@ def handleOvw (args : List String) (obs : String) : Option Reply := do
            tag := if a = "+" ∨ b = "+" then "trivial-one-empty" else "both" }
   | _ => none
 
-def handle (args : List String) (obs : String) : Option Reply := do
-  let ps ← parse args
+/-- one entry as the macros registered it (macro lab, `N` segment of the observation) -/
+structure RegEntry where
+  kind : String          -- "B" benchmark, "g" bench_group module, "G" generic benchmark
+  modPath : String
+  raw : String
+  disp : String
+  file : String
+  line : Nat
+  col : Nat
+  opts : String
+  shape : String
+  deriving Repr, Inhabited
+
+def parseRegEntries (seg : String) : List RegEntry :=
+  if seg = "-" ∨ seg = "" then [] else
+  (seg.splitOn ";").filterMap fun e => match e.splitOn "/" with
+    | [k, m, r, d, f, l, c, o, sh] => some ⟨k, str m, str r, str d, str f, l.toNat?.getD 0, c.toNat?.getD 0, o, sh⟩
+    | _ => none
+
+def itemMeta : Item → Meta
+  | .bench m _ _ => m
+  | .group m => m
+  | .generic m _ _ _ => m
+
+def itemKind : Item → String
+  | .bench _ _ _ => "B"
+  | .group _ => "g"
+  | .generic _ _ _ _ => "G"
+
+def withMeta (it : Item) (m : Meta) : Item :=
+  match it with
+  | .bench _ s a => .bench m s a
+  | .group _ => .group m
+  | .generic _ insts t c => .generic m (insts.map fun b => { b with gmeta := m }) t c
+
+/-- the shape of `GroupEntry::generic_benches` the macro is documented to build: one inner slice per
+    type holding the consts, or a single slice of types / of consts (from the item's raw tokens) -/
+def wantShape (toks : List String) : String :=
+  match toks with
+  | "G" :: rest =>
+    let types := rest.getD 7 "-"; let consts := rest.getD 8 "-"
+    if types = "-" ∧ consts = "-" then "-" else
+    let nt := ((types.splitOn ":").filter (· ≠ "")).length
+    let nc := (((consts.splitOn ":").drop 1).filter (· ≠ "")).length
+    if types ≠ "-" ∧ consts ≠ "-" then "[" ++ "+".intercalate ((List.replicate nt nc).map toString) ++ "]"
+    else if types ≠ "-" then s!"[{nt}]" else s!"[{nc}]"
+  | _ => "-"
+
+def handleCore (mac : Bool) (args : List String) (obs : String) : Option Reply := do
+  let ps0 ← parse args
+  -- macro lab: what the macros registered (metadata, location, constructor order) comes from the child
+  let o0 := words obs
+  let seg0 (c : Char) : String := ((o0.find? fun w => w.front = c).map fun w => (w.drop 1).toString).getD ""
+  let regd := if mac then parseRegEntries (seg0 'N') else []
+  let srcLines : List (Nat × Nat) := if mac then ((seg0 'S').splitOn ":").filterMap fun p => match p.splitOn "-" with
+    | [a, b] => some (a.toNat?.getD 0, b.toNat?.getD 0)
+    | _ => none else []
+  let cfgKV := (splitBar args).headD [] |>.filterMap fun t => match t.splitOn "=" with
+    | k :: v => some (k, "=".intercalate v)
+    | _ => none
+  let nbSlots : List Nat := ((cfgKV.find? (·.1 = "nb")).map fun kv => (kv.2.splitOn ":").filterMap String.toNat?).getD []
+  let rootName := ((cfgKV.find? (·.1 = "root")).map (·.2)).getD "p0"
+  let findReg (it : Item) : List RegEntry :=
+    let m := itemMeta it
+    regd.filter fun e => e.kind = itemKind it ∧ e.modPath = "::".intercalate m.modPath ∧ e.raw = m.raw
+  -- items with the registered location; push order = reverse iteration order, per list
+  let itemsL : List Item := if !mac then ps0.items else
+    ps0.items.map fun it => match findReg it with
+      | e :: _ => withMeta it { itemMeta it with loc := ⟨e.file, e.line, e.col⟩ }
+      | [] => it
+  let idxOfEntry (e : RegEntry) : Option Nat :=
+    (List.range ps0.items.length).find? fun i =>
+      let it := ps0.items.getD i default
+      let m := itemMeta it
+      e.kind = itemKind it ∧ e.modPath = "::".intercalate m.modPath ∧ e.raw = m.raw
+  let orderL : List Nat := if !mac then ps0.order else
+    ((regd.filter (·.kind = "B")).filterMap idxOfEntry).reverse ++ ((regd.filter (·.kind ≠ "B")).filterMap idxOfEntry).reverse
+  let ps : Parse := { ps0 with items := itemsL, order := orderL }
+  -- C12 on the registration itself
+  let rawGroups := (splitBar args).drop 1
+  let regErrs : List String := if !mac then [] else
+    let perItem := (List.range ps0.items.length).flatMap fun i =>
+      let it := ps0.items.getD i default
+      let m := itemMeta it
+      let nm := "::".intercalate (m.modPath ++ [m.raw])
+      match findReg it with
+      | [] => [s!"{nm} was not registered"]
+      | [e] =>
+        let wantOpts := match m.opts with | some o => (showOpts o).replace " " "," | none => "-"
+        let (a, b) := srcLines.getD i (0, 0)
+        (if e.disp ≠ m.disp then [s!"{nm}: display name {e.disp} instead of {m.disp}"] else []) ++
+        (if e.opts ≠ wantOpts then [s!"{nm}: options {e.opts} instead of {wantOpts}"] else []) ++
+        (if e.shape ≠ wantShape (rawGroups.getD i []) then [s!"{nm}: instantiations {e.shape} instead of {wantShape (rawGroups.getD i [])}"] else []) ++
+        (if e.file ≠ s!"src/bin/{rootName}.rs" ∨ e.line < a ∨ e.line > b then [s!"{nm}: location {e.file}:{e.line} outside the item's lines {a}-{b}"] else [])
+      | _ => [s!"{nm} was registered more than once"]
+    let extra := regd.filter fun e => (idxOfEntry e).isNone
+    perItem ++ extra.map fun e => s!"{e.modPath}::{e.raw} is registered but not an item of the program"
   let pr := toProgram ps.items ps.order
   let fbits (s : String) : Option Nat := ((ps.fb.find? (·.1 = s)).map (·.2)).join
   let r := run pr ps.cfg fbits
   -- argument lists are evaluated once per registered benchmark with `args`
+  -- (the macros share one argument list among the instantiations of a generic benchmark: one
+  -- evaluation, counted on its first slot; the synthetic registration has a list per instance)
   let evals := (List.range ps.slots).map fun k =>
     if ps.items.any (fun it => match it with
       | .bench _ s a => s = k ∧ a.isSome
-      | .generic _ insts _ _ => insts.any fun b => b.slot = k ∧ b.args.isSome
+      | .generic _ insts _ _ =>
+        if mac then (match insts.head? with | some b => b.slot = k ∧ b.args.isSome | none => false)
+        else insts.any fun b => b.slot = k ∧ b.args.isSome
       | _ => false) then 1 else 0
   let evalsT := (evals.reverse.dropWhile (· = 0)).reverse
   let evalsS := if evalsT.isEmpty then "0" else ":".intercalate (evalsT.map toString)
@@ -407,13 +506,30 @@ def handle (args : List String) (obs : String) : Option Reply := do
     | _ => "bench"          -- the api forms call `config_with_args` without an action flag: the default is `bench`... see below
   let cfgDump := s!"act={ps.cfgAct};timer=os;sort={ps.sortName};rev={if ps.cfg.rev then 1 else 0};ign={ps.ignName};bytes=decimal;opts={(showOpts ps.cfg.runtime).replace " " ","}"
   let _ := actName
-  let model := s!"X0 G{cfgDump} O{hexS outTxt} L{showExecs r.execs} E{evalsS}"
+  -- benchmarks whose function takes no `Bencher` cannot tell runs apart: total calls per case
+  let isNb (slot : Nat) : Bool := nbSlots.contains slot
+  let execsB := r.execs.filter fun e => !isNb e.slot
+  let labelsB := ((r.execs.zip r.labels).filter fun (e, _) => !isNb e.slot).map (·.2)
+  let aggK : List (Nat × Option String × Nat) := (r.execs.filter fun e => isNb e.slot).foldl (fun acc e =>
+    if acc.any (fun (s, a, _) => s = e.slot ∧ a = e.arg) then
+      acc.map fun (s, a, n) => if s = e.slot ∧ a = e.arg then (s, a, n + e.calls) else (s, a, n)
+    else acc ++ [(e.slot, e.arg, e.calls)]) []
+  let aggK := aggK.filter fun (_, _, n) => n ≠ 0
+  let showK := if aggK.isEmpty then "-" else
+    ",".intercalate (aggK.map fun (s, a, n) => s!"C:{s}:{match a with | some a => hexS a | none => "~"}:{n}")
+  let model := if mac then s!"N{seg0 'N'} S{seg0 'S'} K{showK} X0 G{cfgDump} O{hexS outTxt} L{showExecs execsB} E{evalsS}"
+    else s!"X0 G{cfgDump} O{hexS outTxt} L{showExecs r.execs} E{evalsS}"
   -- ---- spec on the implementation's observation
   let o := words obs
   let seg (c : Char) : String := ((o.find? fun w => w.front = c).map fun w => (w.drop 1).toString).getD ""
   let implOut := str (seg 'O')
   let implExecs := parseExecs (seg 'L')
-  let cases := specCases ps.items
+  let implK : List (Nat × Option String × Nat) := if seg 'K' = "-" ∨ seg 'K' = "" then [] else
+    ((seg 'K').splitOn ",").filterMap fun r => match r.splitOn ":" with
+      | ["C", slot, arg, n] => some (slot.toNat?.getD 0, (if arg = "~" then none else some (str arg)), n.toNat?.getD 0)
+      | _ => none
+  let casesAll := specCases ps0.items
+  let cases := casesAll.filter fun c => !isNb c.slot
   let selected := cases.filter fun c => specSelected ps.pos ps.neg c.path
   let runs := selected.filter fun c =>
     specShouldRun ps.cfg.runIgnored ((resolve (·.ig) ps.cfg.runtime c.chain).getD false)
@@ -421,7 +537,43 @@ def handle (args : List String) (obs : String) : Option Reply := do
   let listing := ps.act = "list" ∨ ps.act = "terse" ∨ ps.act = "listapi"
   let execAct : Action := if ps.act = "bench" ∨ ps.act = "benchapi" then .bench else .test
   let sel := if ps.pos.isEmpty ∧ ps.neg.isEmpty then "[C12][C13]" else "[C13]"
+  let nbRuns := ((casesAll.filter fun c => isNb c.slot).filter fun c => specSelected ps.pos ps.neg c.path).filter fun c =>
+    specShouldRun ps.cfg.runIgnored ((resolve (·.ig) ps.cfg.runtime c.chain).getD false)
   let v : List String :=
+    (if obs.startsWith "compile-error" then ["[C12][C17] the program did not compile: " ++ str ((obs.splitOn ":").getD 1 "")] else []) ++
+    (if regErrs.isEmpty then [] else ["[C12] what the macros registered differs from the items as written: " ++ "; ".intercalate (regErrs.take 3)]) ++
+    -- functions without a `Bencher`: total calls of every selected, not-ignored case; nothing else called
+    (if mac ∧ !listing ∧ (seg 'X') = "0" then
+       let bad := nbRuns.find? fun c =>
+         let eo : Opts := { sc := resolve (·.sc) ps.cfg.runtime c.chain, ss := resolve (·.ss) ps.cfg.runtime c.chain,
+                            maxt := resolve (·.maxt) ps.cfg.runtime c.chain }
+         let ts := specThreads (resolve (·.th) ps.cfg.runtime c.chain) ps.cfg.parallelism
+         let want := ((ts.map fun t => (callsOf execAct eo t).1).foldl (· + ·) 0) * (nbRuns.filter fun d => (d.slot, d.arg) == (c.slot, c.arg)).length
+         let got := ((implK.filter fun (s, a, _) => s = c.slot ∧ a = c.arg).map fun (_, _, n) => n).foldl (· + ·) 0
+         want ≠ got
+       let extra := implK.find? fun (s, a, n) => n ≠ 0 ∧ !(nbRuns.any fun c => c.slot = s ∧ c.arg = a)
+       (match bad with
+        | some c => [s!"[C12][C13][C15][C17] a benchmark function without a Bencher was not called the resolved number of times (case {c.path})"]
+        | none => []) ++
+       (match extra with
+        | some (s, _, _) => [s!"[C12][C13][C17] a benchmark function without a Bencher was called although its case is not selected (slot {s})"]
+        | none => [])
+     else if mac ∧ listing ∧ !implK.isEmpty then ["[C14] listing invoked benchmarked functions"] else []) ++
+    -- C17: rows of a generic benchmark with args are run by the instantiation and argument they name
+    (match implExecs with
+     | some ex =>
+       if listing ∨ clash then [] else
+       let bad := ps.items.any fun it => match it with
+         | .generic _ insts _ _ =>
+           insts.any (fun b => b.args.isSome ∧ !isNb b.slot) ∧
+           (let slots := insts.map (·.slot)
+            let mine := (ex.filter fun e => slots.contains e.slot).map fun e => (e.slot, e.arg)
+            let want := (runs.filter fun c => slots.contains c.slot).flatMap fun c =>
+              List.replicate (specThreads (resolve (·.th) ps.cfg.runtime c.chain) ps.cfg.parallelism).length (c.slot, c.arg)
+            !msEq mine want)
+         | _ => false
+       if bad then ["[C17] the rows of a generic benchmark with args were not run by the instantiation (type / const) and argument they name"] else []
+     | none => []) ++
     (if (seg 'X') = "0" ∧ seg 'G' ≠ cfgDump then
        ["[C15][C14][C16] the runner's run-time configuration differs from what was given on the command line / DIVAN_* environment / builder (got " ++ seg 'G' ++ ")"] else []) ++
     (if (seg 'X') ≠ "0" then ["[C12][C13][C14][C15][C16][C17][C20] run did not finish cleanly (exit " ++ seg 'X' ++ ")"] else []) ++
@@ -430,7 +582,7 @@ def handle (args : List String) (obs : String) : Option Reply := do
      | some ex =>
        (if listing ∧ !ex.isEmpty then ["[C14] listing invoked benchmarked functions"] else []) ++
        (if ps.act = "terse" then
-          let want := runs.map fun c => c.path ++ ": benchmark"
+          let want := (runs ++ nbRuns).map fun c => c.path ++ ": benchmark"
           let got := (implOut.splitOn "\n").filter (· ≠ "")
           if msEq want got then [] else
           [(if clash then "[C12][C14] terse listing differs from the cases a run executes (F7 name clash)"
@@ -466,7 +618,7 @@ def handle (args : List String) (obs : String) : Option Reply := do
             | none => [])
         else []) ++
        -- C03: the samples / iters figures of every statistics row
-       (if execAct = .bench ∧ !listing ∧ !clash then
+       (if execAct = .bench ∧ !listing ∧ !clash ∧ nbRuns.isEmpty then
           let rows := (implOut.splitOn "\n").filterMap fun l =>
             let cells := l.splitOn " │ "
             if cells.length ≥ 6 then
@@ -525,7 +677,7 @@ def handle (args : List String) (obs : String) : Option Reply := do
        (if !listing then
           let bad := (List.range ex.length).any fun i =>
             match (ex.getD i default).arg with
-            | some a => !a.isEmpty && labelOf (lineAt implOut (r.labels.getD i 0)) ≠ a
+            | some a => !a.isEmpty && labelOf (lineAt implOut (labelsB.getD i 0)) ≠ a
             | none => false
           if bad ∧ !clash then ["[C17] a case was run with an argument other than the one its label names"] else []
         else []))
@@ -534,6 +686,9 @@ def handle (args : List String) (obs : String) : Option Reply := do
     if ps.items.isEmpty then "trivial-empty" else
     s!"{ps.act}-{if ps.pos.isEmpty ∧ ps.neg.isEmpty then "nofilter" else "filter"}-ign{ps.cfg.runIgnored}" ++
       (if r.ambiguous then "-ambiguous" else "") ++ (if clash then "-clash" else "")
-  some { model := model, verdict := verdict, tag := tag }
+  some { model := model, verdict := verdict, tag := (if mac then "mac-" else "") ++ tag }
+
+def handle (args : List String) (obs : String) : Option Reply := handleCore false args obs
+def handleMac (args : List String) (obs : String) : Option Reply := handleCore true args obs
 
 end Driver.Reg
